@@ -99,6 +99,123 @@ func pageNumberText(style, num, total int) string {
 
 type genOpts struct {
 	pdfSafe bool // ASCII, one fragment per line, generous separation, no boundary coordinates
+	// mix: every page has its own size (portrait cover + landscape sheets, A4 mixed with
+	// Letter, scaled sheets, ...) with the marginal lines at a constant distance from each
+	// page's OWN top/bottom edge; some pages are covers / chapter openers that carry no
+	// running header, footer or page number but a unique title / imprint in the margin
+	// band; character-level pages are chosen per page (only the openers, only the others,
+	// a random subset, all).
+	mix bool
+}
+
+type slot struct{ y, h int }
+
+// pageGeom is the geometry of one page: its size and where the marginal slots and
+// the body lines sit, measured from the page's own edges.
+type pageGeom struct {
+	H, W                   int
+	hdr1, hdr2, ftr1, ftr2 slot
+	bodyYs                 []int
+}
+
+func stdGeom(H, W int) pageGeom {
+	g := pageGeom{H: H, W: W}
+	g.hdr1, g.hdr2 = slot{H - 32, 12}, slot{H - 52, 12}
+	g.ftr1, g.ftr2 = slot{30, 10}, slot{48, 10}
+	for y := H - 110; y >= 100; y -= 18 {
+		g.bodyYs = append(g.bodyYs, y)
+	}
+	return g
+}
+
+func invGeom(H, W, top, botExtra int) pageGeom {
+	g := pageGeom{H: H, W: W}
+	bot := H + botExtra
+	g.hdr1, g.hdr2 = slot{top, 12}, slot{top + 20, 12}
+	g.ftr1, g.ftr2 = slot{bot, 10}, slot{bot - 20, 10}
+	for y := top + 200; y <= bot-200; y += 18 {
+		g.bodyYs = append(g.bodyYs, y)
+	}
+	return g
+}
+
+// page sizes (width, height) in points: Letter, Letter landscape, A4, A4 landscape, Legal,
+// A5, Tabloid, a sheet scaled to 200 %, a sheet scaled to 50 %, A3 landscape.
+var pageSizes = [][2]int{{612, 792}, {792, 612}, {595, 842}, {842, 595}, {612, 1008}, {420, 595},
+	{792, 1224}, {1224, 1584}, {306, 396}, {1191, 842}}
+
+// words without digits, pairwise different: titles of covers / chapter openers must not
+// repeat anywhere, not even after digit normalisation.
+var openerWords = []string{"Alpha", "Bravo", "Charlie", "Delta", "Echo", "Foxtrot", "Golf", "Hotel", "India",
+	"Juliett", "Kilo", "Lima", "Mike", "November", "Oscar", "Papa"}
+
+// genSizes draws one size per page; with two or more pages at least two different heights occur.
+func genSizes(x *hx.Rng, n int) ([][2]int, string) {
+	out := make([][2]int, n)
+	mode := x.Intn(6)
+	name := ""
+	switch mode {
+	case 0: // portrait cover, landscape sheets
+		name = "portrait-cover+landscape"
+		a := hx.Pick(x, [][2]int{{612, 792}, {595, 842}})
+		for i := range out {
+			out[i] = [2]int{a[1], a[0]}
+		}
+		out[0] = a
+	case 1: // landscape cover (or first sheets), portrait rest
+		name = "landscape-first+portrait"
+		a := hx.Pick(x, [][2]int{{612, 792}, {595, 842}})
+		k := 1 + x.Intn((n+1)/2)
+		for i := range out {
+			out[i] = a
+			if i < k {
+				out[i] = [2]int{a[1], a[0]}
+			}
+		}
+	case 2: // A4 mixed with Letter
+		name = "a4+letter"
+		for i := range out {
+			out[i] = [2]int{612, 792}
+			if x.Bool() {
+				out[i] = [2]int{595, 842}
+			}
+		}
+	case 3: // one odd sheet (a fold-out, a scaled scan) among equal pages
+		name = "one-odd-sheet"
+		a, b := hx.Pick(x, pageSizes), hx.Pick(x, pageSizes)
+		for i := range out {
+			out[i] = a
+		}
+		out[x.Intn(n)] = b
+	case 4: // scaled copies of one sheet
+		name = "scaled"
+		for i := range out {
+			out[i] = hx.Pick(x, [][2]int{{612, 792}, {1224, 1584}, {306, 396}, {918, 1188}})
+		}
+	default:
+		name = "any"
+		for i := range out {
+			out[i] = hx.Pick(x, pageSizes)
+		}
+	}
+	if n >= 2 {
+		same := true
+		for _, s := range out {
+			if s[1] != out[0][1] {
+				same = false
+			}
+		}
+		if same { // force two heights: the last page (or, half of the time, the first) becomes another sheet
+			k := n - 1
+			if x.Bool() {
+				k = 0
+			}
+			for out[k][1] == out[(k+1)%n][1] {
+				out[k] = hx.Pick(x, pageSizes)
+			}
+		}
+	}
+	return out, name
 }
 
 // genDoc builds one document according to the property's quantifier.
@@ -138,23 +255,93 @@ func genDoc(r *hx.Rng, o genOpts) Doc {
 	}
 
 	// vertical positions. Standard: top band is near H; inverted: near the
-	// smallest Y, and content runs past the page height.
-	type slot struct{ y, h int }
-	var hdr1, hdr2, ftr1, ftr2 slot
-	var bodyYs []int
-	if !inverted {
-		hdr1, hdr2 = slot{H - 32, 12}, slot{H - 52, 12}
-		ftr1, ftr2 = slot{30, 10}, slot{48, 10}
-		for y := H - 110; y >= 100; y -= 18 {
-			bodyYs = append(bodyYs, y)
+	// smallest Y, and content runs past the page height. With o.mix every page has
+	// its own size and the slots keep their distance from that page's own edges.
+	xr := r.Fork(0xC11A) // all additional choices of o.mix come from this stream
+	geoms := make([]pageGeom, n)
+	invTop, invBotExtra := 0, 0
+	if inverted {
+		invTop = r.Range(10, 60)
+		invBotExtra = r.Range(150, 400)
+	}
+	sizes := make([][2]int, n)
+	for i := range sizes {
+		sizes[i] = [2]int{612, H}
+	}
+	if o.mix && xr.Chance(5, 6) {
+		var nm string
+		sizes, nm = genSizes(xr, n)
+		if n >= 2 {
+			tag("mixed-sizes")
+			tag("sizes:" + nm)
 		}
-	} else {
-		top := r.Range(10, 60)
-		bot := H + r.Range(150, 400)
-		hdr1, hdr2 = slot{top, 12}, slot{top + 20, 12}
-		ftr1, ftr2 = slot{bot, 10}, slot{bot - 20, 10}
-		for y := top + 200; y <= bot-200; y += 18 {
-			bodyYs = append(bodyYs, y)
+	}
+	for i := range geoms {
+		if inverted {
+			geoms[i] = invGeom(sizes[i][1], sizes[i][0], invTop, invBotExtra)
+		} else {
+			geoms[i] = stdGeom(sizes[i][1], sizes[i][0])
+		}
+	}
+	// covers / chapter openers: no running header, footer or page number, but a unique
+	// title (and sometimes an imprint line) inside the margin bands
+	opener := make([]bool, n)
+	charPage := make([]bool, n)
+	for i := range charPage {
+		charPage[i] = charLevel
+	}
+	openerTitleSlot, openerTitleX := 0, 72
+	if o.mix && n >= 3 && xr.Chance(3, 4) {
+		if xr.Chance(2, 3) {
+			opener[0] = true
+			tag("cover")
+		}
+		for i := 1; i < n-1; i++ { // openers lie before and between the pages carrying the header
+			if xr.Chance(1, 4) {
+				opener[i] = true
+				tag("chapter-opener")
+			}
+		}
+		if xr.Chance(1, 6) {
+			opener[n-1] = true
+		}
+		cnt := 0
+		for _, b := range opener {
+			if b {
+				cnt++
+			}
+		}
+		if cnt > n-2 { // at least two pages carry the running lines
+			for i := 1; i < n; i++ {
+				opener[i] = false
+			}
+		}
+		openerTitleSlot = xr.Intn(2)
+		openerTitleX = hx.Pick(xr, []int{72, 72, 200, 150})
+	}
+	if o.mix && !inverted && !charLevel {
+		switch xr.Intn(8) {
+		case 0, 1: // only the covers / openers are set glyph by glyph (letter-spaced titles)
+			for i := range charPage {
+				charPage[i] = opener[i]
+			}
+		case 2: // everything but the openers
+			for i := range charPage {
+				charPage[i] = !opener[i]
+			}
+		case 3: // some pages
+			for i := range charPage {
+				charPage[i] = xr.Chance(1, 3)
+			}
+		case 4:
+			for i := range charPage {
+				charPage[i] = true
+			}
+		}
+		for _, b := range charPage {
+			if b {
+				tag("charlevel-pages")
+			}
 		}
 	}
 
@@ -216,7 +403,9 @@ func genDoc(r *hx.Rng, o genOpts) Doc {
 		subset[i] = r.Chance(1, 2)
 	}
 	for i := 0; i < n; i++ {
-		p := Page{I: base + i, H: H, W: 612}
+		g := geoms[i]
+		H, hdr1, hdr2, ftr1, ftr2, bodyYs := g.H, g.hdr1, g.hdr2, g.ftr1, g.ftr2, g.bodyYs
+		p := Page{I: base + i, H: g.H, W: g.W}
 		add := func(t string, x int, s slot) {
 			p.F = append(p.F, Frag{T: t, X: x, Y: s.y, W: 6 * len(t), H: s.h, FS: s.h, L: -1})
 		}
@@ -235,7 +424,22 @@ func genDoc(r *hx.Rng, o genOpts) Doc {
 				hs.y += 9
 			}
 		}
-		switch hdrMode {
+		hm, fm := hdrMode, ftrMode
+		if opener[i] {
+			hm, fm = 0, 0
+			// the opener's own marginal text: a title that occurs nowhere else, at the
+			// running header's place or elsewhere in the top band, and sometimes an imprint
+			ts := hdr1
+			if openerTitleSlot == 1 {
+				ts = hdr2
+			}
+			w := openerWords[i%len(openerWords)]
+			add(hx.Pick(xr, []string{"Part ", "The Book of ", "", "Appendix "})+w, openerTitleX, ts)
+			if xr.Chance(1, 2) {
+				add("Imprint "+w+" Press", 72, ftr1)
+			}
+		}
+		switch hm {
 		case 1, 5:
 			add(hdrText, 72, hs)
 		case 2:
@@ -253,12 +457,12 @@ func genDoc(r *hx.Rng, o genOpts) Doc {
 				add(hdrText, 72, hs)
 			}
 		}
-		if conflict && i == n-1 && hdrMode != 0 {
+		if conflict && i == n-1 && hm != 0 {
 			add(hdrText, 330, hdr2)
 			tag("band-conflict")
 		}
 		// page number
-		if pnStyle >= 0 && !(pnSkipFirst && i == 0) {
+		if pnStyle >= 0 && !(pnSkipFirst && i == 0) && !opener[i] {
 			t := pageNumberText(pnStyle, pnStart+i, pnStart+n-1)
 			if pnInHeader {
 				add(t, 430, hdr1)
@@ -328,7 +532,7 @@ func genDoc(r *hx.Rng, o genOpts) Doc {
 			tag("boundary")
 		}
 		// running footer
-		switch ftrMode {
+		switch fm {
 		case 1, 5:
 			add(ftrText, 72, ftr1)
 		case 2:
@@ -352,7 +556,7 @@ func genDoc(r *hx.Rng, o genOpts) Doc {
 		if o.pdfSafe {
 			p.F = onePerLine(p.F)
 		}
-		if charLevel {
+		if charPage[i] {
 			p = explode(p)
 		}
 		doc.Pages = append(doc.Pages, p)
